@@ -38,7 +38,7 @@ PLAN = {
 # fixed scenarios of the design model: cfg -> expected result
 MODEL_CASES = [
     ("ConstOps.cfg", "ok"), ("ConstOps_readonly.cfg", "ok"), ("ConstOps_local.cfg", "ok"), ("ConstOps_once.cfg", "ok"),
-    ("ConstOps_scratch.cfg", "NoRace"), ("ConstOps_scratch_det.cfg", "Deterministic"), ("ConstOps_lazy.cfg", "NoRace"),
+    ("ConstOps_scratch.cfg", "NoRace"), ("ConstOps_scratch_det.cfg", "Deterministic"), ("ConstOps_lazy.cfg", "NoRace"), ("ConstOps_lazy_det.cfg", "ok"),
     ("ConstOps_cache.cfg", "NoRace"), ("ConstOps_table.cfg", "NoRace"),
 ]
 
@@ -541,7 +541,10 @@ def _check(oc, prop, tier, seed, replay, workdir):
             inv = {"op": "inv", "part": p, "guarded": sorted(short(g) for g in sym.guards), "nguards": len(sym.guards),
                    "lib_guarded": sorted(short(g) for g in sym.guards if "smooth::" in g)}
             return p, inv, evs
+        import time
+        t0 = time.time()
         fp_res = {p: (inv, evs) for p, inv, evs in pool.map(fp_part, PARTS)}
+        V.log(f"[conc] footprints recorded {time.time() - t0:.1f}s")
         all_fp = [ev for p in PARTS for ev in fp_res[p][1]]
         classes = [(ev["part"], ev["cls"]) for ev in all_fp]
         if only:
@@ -581,6 +584,7 @@ def _check(oc, prop, tier, seed, replay, workdir):
                     futs.append((p, c, opool.submit(run_obs, exes, p, c, san, T, N, seed, workdir, f"{tg}", revs[0]["N"])))
                 for p, c, f in futs:
                     run_events[p] += refs[(p, c)][1] + f.result()
+            V.log(f"[conc] runs {san} T={T} N={N} done at {time.time() - t0:.1f}s")
 
         # ---- collect the model results
         model_ev = {p: [] for p in PARTS}
@@ -618,6 +622,7 @@ def _check(oc, prop, tier, seed, replay, workdir):
                 raise V.ToolFailure(f"design model {cfg}: expected {expect}, TLC says {got} (seeded specification mutant not rejected / "
                                     f"design scenario rejected):\n{r['out'][-1200:]}")
 
+        V.log(f"[conc] design models done at {time.time() - t0:.1f}s")
         # ---- schedule replay on the real SubManifold<GateM>
         sched_ev = []
         if not only or only.startswith("man.sub.gate"):
@@ -673,6 +678,7 @@ def _check(oc, prop, tier, seed, replay, workdir):
                     if mm:
                         payload["constops"] = {"norace": mm[0]["norace"], "deterministic": mm[0]["det"], "racing_schedule": mm[0]["schedule"]}
                 found.append((p, b["line"], b2, payload))
+        V.log(f"[conc] traces validated at {time.time() - t0:.1f}s")
         # deterministic order; the evidence kinds of one class next to each other
         for p, line, b2, payload in sorted(found, key=lambda t: (t[0], t[2].get("stratum") or "", t[2]["op"], t[1])):
             oc.bad_step(b2, payload)
